@@ -139,7 +139,8 @@ CHECKS = {
              "runs of the same hydraulic set-up under different pollutant lists, orders, concentrations, loads and treatment "
              "parameters must give identical volumes for every arc and store at every timestep (every third set-up with travel-time / "
              "decaying arcs and ephemeral streams, configurations without decay and with all-zero qualities). Queue tanks: any two with "
-             "the same dimensions and volumes give the same volumes under every operation sequence WHETHER OR NOT THEY DECAY (QTankErasure.v).",
+             "the same dimensions and volumes give the same volumes under every operation sequence WHETHER OR NOT THEY DECAY (QTankErasure.v); "
+             "the volumes of the treatment step and of IHACRES on a pervious surface depend on volumes, hydraulic parameters and weather only (NodeErasure.v).",
         design="5/C20", tech="Coq proof (relational erasure lemmas) + paired exact whole-model runs (partial)",
         note=NOTE),
     "C13": dict(
